@@ -45,12 +45,12 @@ def fix_limits(c):
 
 def sub_decision(col, budget, seed, tier, shard, nshards):
     M.run(col, SimWorld, CHECKS, cfg(False).map(fix_limits), budget, 30 if tier == "quick" else 60, seed, tier, "decision",
-          rule_weights={"place_existing": 0, "squeeze": 1, "resubmit": 1})  # resubmit: a refused order submitted again
+          rule_weights={"place_existing": 0, "squeeze": 1, "resubmit": 1, "txn": 1})  # resubmit: a refused order submitted again; txn: batched requests with explicit flushes
 
 
 def sub_discipline(col, budget, seed, tier, shard, nshards):
     M.run(col, SimWorld, CHECKS, cfg(True).map(fix_limits), budget, 30 if tier == "quick" else 60, seed, tier, "discipline",
-          rule_weights={"place_existing": 0, "squeeze": 1})
+          rule_weights={"place_existing": 0, "squeeze": 1, "txn": 1})
 
 
 @st.composite
